@@ -229,7 +229,7 @@ def run_property(pid, tier, seed, replay=None):
 
     # 4. oracle (guided by what broke, if anything)
     oracle = None
-    if cfg.get("oracle"):
+    if cfg.get("oracle") and not os.environ.get("VERIF_SKIP_ORACLE"):     # (development switch: compile + correspondence only)
         oout = os.path.join(bdir, "oracle.json")
         cmd = [PY, os.path.join(VERIF, "harness", cfg["oracle"]), "--tier", tier, "--seed", str(seed), "--out", oout]
         if replay:
